@@ -48,8 +48,21 @@ def decide_with_locals(hier, var, cls, prog=None):
         if name not in penv:
             return None
         v = penv[name]
-        if isinstance(v, ast.Call) and isinstance(v.func, ast.Name) and v.func.id == "cast" and len(v.args) == 2:
-            v = v.args[1]
+        for _ in range(4):
+            if isinstance(v, ast.Call) and isinstance(v.func, ast.Name) and v.func.id == "cast" and len(v.args) == 2:
+                v = v.args[1]
+            elif isinstance(v, ast.IfExp):
+                # `x = A if <class test> else B`: the class test is decided like any other
+                tt = boolx.path_subst(v.test, penv)
+                neg = False
+                while isinstance(tt, ast.UnaryOp) and isinstance(tt.op, ast.Not):
+                    tt, neg = tt.operand, not neg
+                d = base(" ".join(ast.unparse(tt).split()))
+                if d is None:
+                    break
+                v = v.body if (d != neg) else v.orelse
+            else:
+                break
         if isinstance(v, ast.Constant):
             is_none = v.value is None
             if isinstance(ast.parse(t, mode="eval").body, ast.Name):
